@@ -238,7 +238,29 @@ fn open_class<D: arroy::Distance>(rtxn: &RoTxn, idx: u16, db: RawDb) -> String {
 
 /// API-level observation bundle of one index (C05, C06)
 pub fn observe(ctx: &mut Ctx, rtxn: &RoTxn, db: RawDb, idx: u16, metric: Metric, dim: usize) -> Value {
+    observe_with(ctx, rtxn, db, idx, metric, dim, None)
+}
+
+/// no split node reachable from a root lies on a cycle (arroy's own validator recurses without a bound)
+pub fn acyclic(ir: &IndexRaw) -> bool {
+    fn go(ir: &IndexRaw, id: u32, depth: usize) -> bool {
+        if depth > ir.nodes.len() + 1 {
+            return false;
+        }
+        match ir.nodes.get(&id) {
+            Some(decode::TreeNode::Split { left, right, .. }) => [left, right]
+                .iter()
+                .all(|c| !matches!(c.kind, decode::ChildKind::Tree) || go(ir, c.id, depth + 1)),
+            _ => true,
+        }
+    }
+    ir.meta.as_ref().map(|m| m.roots.iter().all(|r| go(ir, *r, 0))).unwrap_or(true)
+}
+
+/// `ir`: the decoded index when the caller has it; enables the run of arroy's own validator
+pub fn observe_with(ctx: &mut Ctx, rtxn: &RoTxn, db: RawDb, idx: u16, metric: Metric, dim: usize, ir: Option<&IndexRaw>) -> Value {
     let ids = ctx.ids.clone();
+    let run_validator = ir.map(acyclic).unwrap_or(false);
     let r = catch_unwind(AssertUnwindSafe(|| {
         with_metric!(metric, D, {
             let adb: arroy::Database<D> = db.remap_types();
@@ -290,8 +312,19 @@ pub fn observe(ctx: &mut Ctx, rtxn: &RoTxn, db: RawDb, idx: u16, metric: Metric,
                 let stats = catch_unwind(AssertUnwindSafe(|| reader.stats(rtxn))).ok().and_then(|r| r.ok());
                 let n_nodes = reader.n_nodes(rtxn).ok().flatten().map(|n| n.get() as i64).unwrap_or(0);
                 let total_keys = db.iter(rtxn).map(|it| it.count() as i64).unwrap_or(-1);
+                // Reader::assert_validity (feature assert-reader-validity): arroy's own structural check
+                let valid = if !run_validator {
+                    "skipped"
+                } else {
+                    match catch_unwind(AssertUnwindSafe(|| reader.assert_validity(rtxn))) {
+                        Ok(Ok(())) => "Ok",
+                        Ok(Err(_)) => "Err",
+                        Err(_) => "Panic",
+                    }
+                };
                 rd = json!({
                     "has": true,
+                    "valid": valid,
                     "stats_ok": stats.is_some(),
                     "stats": stats.as_ref().map(|s| s.tree_stats.iter().map(|t| json!([t.depth as i64, t.dummy_normals as i64, t.split_nodes as i64, t.descendants as i64])).collect::<Vec<_>>()).unwrap_or_default(),
                     "stats_leaf": stats.as_ref().map(|s| s.leaf as i64).unwrap_or(-1),
@@ -822,7 +855,7 @@ pub fn run_history_with(
             ev["all"] = json!(all_states(&mut ctx, &after, &metric, false));
         }
         if cfg.observe && !matches!(op, Op::Search { .. }) {
-            ev["obs"] = observe(&mut ctx, w, db, idx, m_after, dim);
+            ev["obs"] = observe_with(&mut ctx, w, db, idx, m_after, dim, dec.get(&idx));
         }
         out.push(ev);
         stats.events += 1;
